@@ -31,7 +31,7 @@
 From Coq Require Import List Bool Arith Lia.
 From SQ Require Import Base.ListUtil Stab.Tableau Net.Model Net.Refusal Net.Handles Net.Inv Net.InvNew Net.InvStep
   Net.Bookkeeping Net.Population Net.NonEmpty Net.PerNode Qasm.Exec Qasm.ExecProps Qasm.Teardown Qasm.TeardownFull
-  Qasm.EprGate Qasm.PerNodeNum Qasm.TeardownX.
+  Qasm.EprGate Qasm.PerNodeNum Qasm.TeardownX Qasm.EprFailNode.
 Import ListNotations.
 
 Local Arguments step : simpl never.
@@ -277,7 +277,8 @@ Lemma clear_pid_live i s p c hd (l l2 : list (nat * nat)) num :
     ginv (q_net s') /\ next_hid (q_net s) <= next_hid (q_net s') /\
     length (nodes (q_net s')) = length (nodes (q_net s)) /\
     vn (nth_node (q_net s') i) = l ++ l2 /\
-    forall j, j <> i -> vn (nth_node (q_net s') j) = vn (nth_node (q_net s) j).
+    (forall j, j <> i -> vn (nth_node (q_net s') j) = vn (nth_node (q_net s) j)) /\
+    q_net s' = fst (step (q_net s) (OMeas hd false c)).
 Proof.
   intros G P V N1 N2.
   assert (Hin : In hd (hn (nth_node (q_net s) i))).
@@ -292,7 +293,7 @@ Proof.
   unfold clear_pid, virt_of. rewrite P. unfold native.
   destruct (step (q_net s) (OMeas hd false c)) as [n' r0] eqn:E. cbn [fst snd] in *. subst r0.
   eexists _, v. split; [reflexivity|]. cbn [q_net q_host].
-  split; [reflexivity|]. split; [exact G'|]. split; [exact Mo|]. split; [exact ML|]. split.
+  split; [reflexivity|]. split; [exact G'|]. split; [exact Mo|]. split; [exact ML|]. split; [|split; [|reflexivity]].
   - rewrite (MV i eq_refl F), Nat.eqb_refl, V. apply filter_drop_mid_vn; auto.
   - intros j Nj. rewrite (MV j eq_refl F). destruct (Nat.eqb_spec j i); [contradiction|reflexivity].
 Qed.
@@ -302,14 +303,17 @@ Qed.
    physical ids, qubitList, active applications) is exactly what it was, and so is the list of qubits EVERY node holds
    (handles and virtual numbers, in order) *)
 Local Ltac same_state G0 :=
-  split; [reflexivity|]; split; [reflexivity|]; split; [exact G0|]; split; [apply le_n|]; split; [reflexivity|]; intro; reflexivity.
+  split; [reflexivity|]; split; [reflexivity|]; split; [exact G0|]; split; [apply le_n|]; split; [reflexivity|];
+  split; [intro; reflexivity|exists 0; split; [lia|symmetry; apply bump_0]].
 Lemma epr_keep_failure_effect i s known r adj qid coins s' res tr :
   ginv (q_net s) ->
   (forall k hd, plookup k (h_qlist (q_host s)) = Some hd -> exists p, k = PP p /\ p <> qid) ->
   cmd_epr_keep i s known r adj qid coins = (s', res, tr) -> res <> RDone None ->
   res = RErr /\ q_host s' = q_host s /\ ginv (q_net s') /\ next_hid (q_net s) <= next_hid (q_net s') /\
   length (nodes (q_net s')) = length (nodes (q_net s)) /\
-  forall j, vn (nth_node (q_net s') j) = vn (nth_node (q_net s) j).
+  (forall j, vn (nth_node (q_net s') j) = vn (nth_node (q_net s) j)) /\
+  (* ... and, node by node, EVERYTHING but the register-number counter of node i (EprFailNode.v) *)
+  exists k, k <= 2 /\ nodes (q_net s') = upd (nodes (q_net s)) i (bump (nth_node (q_net s) i) k).
 Proof.
   intros G0 KK. set (ql := h_qlist (q_host s)).
   assert (NP : plookup (PP qid) ql = None).
@@ -336,10 +340,11 @@ Proof.
   assert (ONE : forall sx, q_host sx = q_host s1 -> q_net sx = q_net s1 -> forall cs tx,
             exists sc tc, epr_fail sx qid cs tx = (sc, RErr, tc) /\ q_host sc = q_host s /\ ginv (q_net sc) /\
               next_hid (q_net s) <= next_hid (q_net sc) /\ length (nodes (q_net sc)) = length (nodes (q_net s)) /\
-              forall j, vn (nth_node (q_net sc) j) = vn (nth_node (q_net s) j)).
+              (forall j, vn (nth_node (q_net sc) j) = vn (nth_node (q_net s) j)) /\
+              exists k, k <= 2 /\ nodes (q_net sc) = upd (nodes (q_net s)) i (bump (nth_node (q_net s) i) k)).
   { intros sx HX NX cs tx. unfold epr_fail. cbn [epr_cleanup]. unfold virt_of. rewrite HX, Q1. cbn [h_qlist with_qlist]. fold ql.
     rewrite plookup_pset_eq.
-    destruct (clear_pid_live i sx (PP qid) (hd false cs) a1 (vn (nth_node (q_net s) i)) [] v1) as (sA & vA & CA & QA & GA & MA & LA & VA & OA).
+    destruct (clear_pid_live i sx (PP qid) (hd false cs) a1 (vn (nth_node (q_net s) i)) [] v1) as (sA & vA & CA & QA & GA & MA & LA & VA & OA & NA).
     { rewrite NX. exact G1. }
     { rewrite HX, Q1. cbn [h_qlist with_qlist]. fold ql. apply plookup_pset_eq. }
     { rewrite NX, VN1, Nat.eqb_refl. reflexivity. }
@@ -350,10 +355,14 @@ Proof.
     eexists _, _. split; [reflexivity|].
     split. { rewrite QA, HX, Q1. cbn [h_qlist with_qlist]. fold ql. rewrite premove_pset, (premove_absent _ _ NP).
              rewrite with_qlist_twice. apply with_qlist_same. }
-    split; [exact GA|]. split; [rewrite NX in MA; lia|]. split; [rewrite LA, NX; exact L1|].
-    intro j. destruct (Nat.eq_dec j i) as [->|Nj].
-    - rewrite VA, app_nil_r. reflexivity.
-    - rewrite (OA j Nj), NX, VN1. destruct (Nat.eqb_spec j i); [contradiction|reflexivity]. }
+    split; [exact GA|]. split; [rewrite NX in MA; lia|]. split; [rewrite LA, NX; exact L1|]. split.
+    - intro j. destruct (Nat.eq_dec j i) as [->|Nj].
+      + rewrite VA, app_nil_r. reflexivity.
+      + rewrite (OA j Nj), NX, VN1. destruct (Nat.eqb_spec j i); [contradiction|reflexivity].
+    - exists 1. split; [lia|]. rewrite NA, NX, E1.
+      assert (OK1 : snd (step (q_net s) (ONew i)) = Ok v1) by (rewrite S1; reflexivity).
+      pose proof (one_temp_restored i (q_net s) v1 (hd false cs) G0 OK1) as R1. unfold run in R1. cbn [fold_left] in R1.
+      fold a1 in R1. rewrite R1. reflexivity. }
   destruct (cmd_new i s1 (PM qid)) as [[s2 [|]] t2] eqn:C2; cbn [negb].
   2: { (* the second cmd_new is refused: the first temporary is removed *)
        apply cmd_new_fail in C2 as [-> _].
@@ -400,14 +409,15 @@ Proof.
   assert (BOTH : (forall v, r5 <> Ok v) -> forall tx,
             exists sc tc, epr_fail s5 qid coins tx = (sc, RErr, tc) /\ q_host sc = q_host s /\ ginv (q_net sc) /\
               next_hid (q_net s) <= next_hid (q_net sc) /\ length (nodes (q_net sc)) = length (nodes (q_net s)) /\
-              forall j, vn (nth_node (q_net sc) j) = vn (nth_node (q_net s) j)).
+              (forall j, vn (nth_node (q_net sc) j) = vn (nth_node (q_net s) j)) /\
+              exists k, k <= 2 /\ nodes (q_net sc) = upd (nodes (q_net s)) i (bump (nth_node (q_net s) i) k)).
   { intros NOK tx.
     assert (N5 : q_net s5 = q_net s4).
     { pose proof (step_not_ok_same (q_net s4) (OSend a2 r)) as Y. rewrite S5 in Y. cbn [fst snd] in Y. apply Y; auto. }
     unfold epr_fail. cbn [epr_cleanup]. unfold virt_of. rewrite QH5.
     rewrite plookup_pset_neq by discriminate. rewrite plookup_pset_eq.
     destruct (clear_pid_live i s5 (PP qid) (hd false coins) a1 (vn (nth_node (q_net s) i)) [(v2, a2)] v1)
-      as (sA & vA & CA & QA & GA & MA & LA & VA & OA).
+      as (sA & vA & CA & QA & GA & MA & LA & VA & OA & NA).
     { rewrite N5. exact G4. }
     { rewrite QH5. rewrite plookup_pset_neq by discriminate. apply plookup_pset_eq. }
     { rewrite N5, VI4. reflexivity. }
@@ -419,7 +429,7 @@ Proof.
       rewrite premove_pset, (premove_absent _ _ NP). reflexivity. }
     rewrite QLA, plookup_pset_eq.
     destruct (clear_pid_live i sA (PM qid) (hd false (tl coins)) a2 (vn (nth_node (q_net s) i)) [] v2)
-      as (sB & vB & CB & QB & GB & MB & LB & VB & OB).
+      as (sB & vB & CB & QB & GB & MB & LB & VB & OB & NB).
     { exact GA. }
     { rewrite QLA. apply plookup_pset_eq. }
     { exact VA. }
@@ -429,10 +439,15 @@ Proof.
     split.
     { rewrite QB, QLA, premove_pset, (premove_absent _ _ NM). rewrite QA, with_qlist_twice, Q5, Q4, Q3, Q2, Q1, !with_qlist_twice.
       apply with_qlist_same. }
-    split; [exact GB|]. split; [rewrite N5 in MA; lia|]. split; [rewrite LB, LA, N5; exact L4|].
-    intro j. destruct (Nat.eq_dec j i) as [->|Nj].
-    - rewrite VB, app_nil_r. reflexivity.
-    - rewrite (OB j Nj), (OA j Nj), N5. apply VJ4. exact Nj. }
+    split; [exact GB|]. split; [rewrite N5 in MA; lia|]. split; [rewrite LB, LA, N5; exact L4|]. split.
+    - intro j. destruct (Nat.eq_dec j i) as [->|Nj].
+      + rewrite VB, app_nil_r. reflexivity.
+      + rewrite (OB j Nj), (OA j Nj), N5. apply VJ4. exact Nj.
+    - exists 2. split; [lia|]. rewrite NB, NA, N5, E4, E3, E2, E1.
+      assert (OK1 : snd (step (q_net s) (ONew i)) = Ok v1) by (rewrite S1; reflexivity).
+      assert (OK2 : snd (step (fst (step (q_net s) (ONew i))) (ONew i)) = Ok v2) by (rewrite <- E1, S2; reflexivity).
+      pose proof (two_temps_restored i (q_net s) v1 v2 (hd false coins) (hd false (tl coins)) G0 OK1 OK2) as R2.
+      unfold run in R2. cbn [fold_left] in R2. fold a1 in R2. rewrite <- A12 in R2. rewrite R2. reflexivity. }
   destruct r5 as [v5| | |].
   - intros H ND. inversion H; subst. exfalso. apply ND. reflexivity.
   - destruct (BOTH ltac:(intros; discriminate) (t1 ++ t2 ++ t3 ++ t4 ++ t5)) as (sc & tc & EF & R).
@@ -689,7 +704,7 @@ Proof.
         -- subst e. unfold p_node, p_num, p_hd, hid_of_num. cbn [fst snd]. rewrite VR. apply lookup_app_fresh. exact VF.
     + (* not created -- refused before any temporary existed, or failed afterwards and cleaned up: every host and every node's
          list of held qubits is what it was *)
-      destruct (epr_keep_failure_effect i qs known r adj qid coins s1 res tr GG) as (RE & QH & G1 & Mo & LL & VV); auto.
+      destruct (epr_keep_failure_effect i qs known r adj qid coins s1 res tr GG) as (RE & QH & G1 & Mo & LL & VV & NB); auto.
       { intros k hd Hk. destruct (x_keys _ _ _ Ti k hd Hk) as (p & E & Hu). exists p. split; auto.
         intro; subst p. apply (fresh_id_not_in (h_used (host_at s i))). exact Hu. }
       subst res. cbn [fst]. subst qs. cbn [q_net q_host] in *. rewrite QH.
@@ -1002,15 +1017,19 @@ Qed.
    the checks, by the creator's own node at the first or the second cmd_new, or by the receiving node at the hand-over --
    answers an error and leaves behind exactly what was there: every host's bookkeeping (unit modules, used physical ids,
    qubitList, active applications; the creator's included), the receive deques, and for EVERY node the list of qubits it holds
-   (handles and virtual numbers, in order), hence the number of qubits it holds. *)
+   (the virtualQubit records themselves: handle, number, simulating node, simulated number -- in order), the list of qubits it
+   simulates, its registers (number, capacity, size, tableau) and its register count.  Only two counters that are never
+   re-used have advanced: the handle counter and the creator node's register-number counter. *)
 Theorem failed_creation_restores s i app a known r adj rsock coins :
   ninv s -> i < length (n_hosts s) ->
   snd (nstep_r s (ACreate i app a known r adj rsock coins)) <> RDone None ->
   let s' := nstep s (ACreate i app a known r adj rsock coins) in
   snd (nstep_r s (ACreate i app a known r adj rsock coins)) = RErr /\
   n_hosts s' = n_hosts s /\ n_pend s' = n_pend s /\
-  forall j, vn (nth_node (n_net s') j) = vn (nth_node (n_net s) j) /\
-            hn (nth_node (n_net s') j) = hn (nth_node (n_net s) j) /\
+  forall j, virt (nth_node (n_net s') j) = virt (nth_node (n_net s) j) /\
+            sims (nth_node (n_net s') j) = sims (nth_node (n_net s) j) /\
+            regs (nth_node (n_net s') j) = regs (nth_node (n_net s) j) /\
+            numRegs (nth_node (n_net s') j) = numRegs (nth_node (n_net s) j) /\
             held (n_net s') j = held (n_net s) j.
 Proof.
   intros I Hi. unfold nstep. cbn [nstep_r]. destruct (Nat.ltb_spec i (length (n_hosts s))) as [_|]; [|lia].
@@ -1023,10 +1042,12 @@ Proof.
   { intros k hd Hk. destruct (x_keys _ _ _ Ti k hd Hk) as (p & E & Hu). exists p. split; auto.
     intro; subst p. apply (fresh_id_not_in (h_used (host_at s i))). exact Hu. }
   destruct (epr_keep_failure_effect i (mkQ (n_net s) (host_at s i)) known r adj _ coins s1 res tr (g_ginv s I) KK CE ND)
-    as (RE & QH & G1 & Mo & LL & VV).
+    as (RE & QH & G1 & Mo & LL & VV & NB).
   subst res. cbn [fst snd n_net n_hosts n_pend q_net q_host] in *. rewrite QH.
   split; [reflexivity|]. split; [apply upd_same|]. split; [reflexivity|].
-  intro j. split; [apply VV|]. split; [rewrite !hn_vn, VV; reflexivity|]. rewrite !held_hn, !hn_vn, VV. reflexivity.
+  destruct NB as (k & _ & NB). intro j.
+  destruct (bumped_same_fields (n_net s) (q_net s1) i k NB j) as (A & B & C & D & _).
+  split; [exact A|]. split; [exact B|]. split; [exact C|]. split; [exact D|]. rewrite !held_hn, !hn_vn, VV. reflexivity.
 Qed.
 
 (* the same for one host, at the level of cmd_epr itself: whatever the creator held (qubitList, used ids, unit modules) and
@@ -1036,7 +1057,11 @@ Theorem failed_creation_leaves_creator i ex s known r adj coins :
   let c := cmd_epr_keep i s known r adj (fresh_id (h_used (q_host s))) coins in
   snd (fst c) <> RDone None ->
   snd (fst c) = RErr /\ q_host (fst (fst c)) = q_host s /\ tinvx i ex (fst (fst c)) /\
-  forall j, hn (nth_node (q_net (fst (fst c))) j) = hn (nth_node (q_net s) j) /\ held (q_net (fst (fst c))) j = held (q_net s) j.
+  forall j, virt (nth_node (q_net (fst (fst c))) j) = virt (nth_node (q_net s) j) /\
+            sims (nth_node (q_net (fst (fst c))) j) = sims (nth_node (q_net s) j) /\
+            regs (nth_node (q_net (fst (fst c))) j) = regs (nth_node (q_net s) j) /\
+            numRegs (nth_node (q_net (fst (fst c))) j) = numRegs (nth_node (q_net s) j) /\
+            held (q_net (fst (fst c))) j = held (q_net s) j.
 Proof.
   intros T c ND. unfold c in *. clear c.
   destruct (cmd_epr_keep i s known r adj (fresh_id (h_used (q_host s))) coins) as [[s1 res] tr] eqn:CE. cbn [fst snd] in *.
@@ -1044,12 +1069,14 @@ Proof.
   assert (KK : forall k hd, plookup k (h_qlist (q_host s)) = Some hd -> exists p, k = PP p /\ p <> fresh_id (h_used (q_host s))).
   { intros k hd Hk. destruct (x_keys _ _ _ T k hd Hk) as (p & E & Hu). exists p. split; auto.
     intro; subst p. apply (fresh_id_not_in (h_used (q_host s))). exact Hu. }
-  destruct (epr_keep_failure_effect i s known r adj _ coins s1 res tr GG KK CE ND) as (RE & QH & G1 & Mo & LL & VV).
+  destruct (epr_keep_failure_effect i s known r adj _ coins s1 res tr GG KK CE ND) as (RE & QH & G1 & Mo & LL & VV & NB).
   assert (HH : forall j, hn (nth_node (q_net s1) j) = hn (nth_node (q_net s) j)) by (intro j; rewrite !hn_vn, VV; reflexivity).
   split; [exact RE|]. split; [exact QH|]. split.
   - destruct s1 as [n1 h1]. cbn [q_net q_host] in *. subst h1. destruct s as [n0 h0]. cbn [q_net q_host] in *.
     apply (tinvx_frame i ex n1 (mkQ n0 h0)); auto.
-  - intro j. split; [apply HH|]. rewrite !held_hn, HH. reflexivity.
+  - destruct NB as (k & _ & NB). intro j.
+    destruct (bumped_same_fields (q_net s) (q_net s1) i k NB j) as (A & B & C & D & _).
+    split; [exact A|]. split; [exact B|]. split; [exact C|]. split; [exact D|]. rewrite !held_hn, HH. reflexivity.
 Qed.
 
 (* ---- `cleans` is decidable (for the examples) ---------------------------------------------------------------------------------------- *)
